@@ -370,6 +370,16 @@ func checkC03(c KeyCase) (bool, *Violation) {
 	nontrivial := false
 	for i := range w.Steps {
 		ws := &w.Steps[i]
+		// which keys meet on one (channel, pitch) follows from octave, semitone, channel and mapping; how those move is C04's
+		// business. Should the device report other values than the model of C04 has, the mode rules can no longer be applied
+		// to this history (nothing is asserted from there on)
+		if i > 0 {
+			ps, pm := w.Steps[i-1].Res.State, w.Steps[i-1].Post
+			if int(ps.Octave) != pm.Octave || int(ps.Semitone) != pm.Semitone || int(ps.Channel) != pm.Channel || ps.Mapping != c.D.Mappings[pm.Mapping].Name {
+				classify("device state differs from the model of C04: rest of the history not asserted")
+				return nontrivial, nil
+			}
+		}
 		switch ws.Model.Kind {
 		case "note-press", "note-release":
 			if ws.Model.Collision > 0 {
@@ -466,12 +476,33 @@ func checkC14(c KeyCase) (bool, *Violation) {
 	}
 	order := []uint16{}
 	rx := NewReceiver()
+	modelApplies := true
+	completedBy := map[uint16]bool{}
 	for i := range w.Steps {
 		ws := &w.Steps[i]
 		// the swallowed press must leave nothing behind: octave, semitone, channel and mapping follow the reference
 		// model (in which that press does not exist) for the whole history, also after the completion
-		if st := ws.Res.State; int(st.Octave) != ws.Post.Octave || int(st.Semitone) != ws.Post.Semitone || int(st.Channel) != ws.Post.Channel ||
-			st.Mapping != c.D.Mappings[ws.Post.Mapping].Name {
+		// How the values move otherwise is C04's business: a difference that first shows at any other step ends this comparison
+		// (it says nothing about the exit sequence), one that first shows at a completing press or at the release of the key
+		// that completed is what this clause is about.
+		stateDiffers := func() bool {
+			st := ws.Res.State
+			return int(st.Octave) != ws.Post.Octave || int(st.Semitone) != ws.Post.Semitone || int(st.Channel) != ws.Post.Channel ||
+				st.Mapping != c.D.Mappings[ws.Post.Mapping].Name
+		}
+		aboutExit := ws.Model.Signal || (ws.Step.T == "key" && ws.Step.Val == 0 && completedBy[ws.Step.Code])
+		if ws.Model.Signal && ws.Step.T == "key" {
+			completedBy[ws.Step.Code] = true
+		} else if ws.Step.T == "key" && ws.Step.Val == 0 {
+			delete(completedBy, ws.Step.Code)
+		}
+		if !modelApplies {
+			// (nothing)
+		} else if stateDiffers() && !aboutExit {
+			modelApplies = false
+			classify("device state differs from the model of C04 at a step that has nothing to do with the exit sequence: state no longer compared")
+		} else if stateDiffers() {
+			st := ws.Res.State
 			return true, violation("C14", "state-after-swallowed-press", fmt.Sprint(fired),
 				"%s: device reports octave=%d semitone=%d channel=%d mapping=%q, expected %s (exit sequence %v, completed earlier: %v)",
 				describeStep(i, ws), st.Octave, st.Semitone, int(st.Channel)+1, st.Mapping, ws.Post, c.D.Exit, fired)
